@@ -180,6 +180,24 @@ Theorem C12_dispatcher_cancel :
 Proof. exact dispatcher_cancel. Qed.
 Print Assumptions C12_dispatcher_cancel.
 
+(* The limiter.  [dstep_b lim burst] is the loop with golang.org/x/time/rate's guarantee for the call it makes,
+   Wait(ctx) = WaitN(ctx, 1): the loop asks for ONE token per provider call, however many sources the batch holds
+   ([limiter_request ips] = 1); the limiter refuses at once iff that exceeds its bucket [burst], and otherwise grants
+   unless the context is done:
+     limiter_ok burst d DLimit    = (1 <=? burst)        limiter_ok burst d DLimitErr = d_cancelled d || (burst <? 1).
+   So for every bucket of at least one token and EVERY batch limit -- also limits above the bucket size, full batches
+   included -- a history without cancellation contains no limiter failure: the loop never returns, nothing is
+   dropped or abandoned, every received source is queried or still being collected, every call has 1..limit sources. *)
+Theorem C12_dispatcher_limiter :
+  forall (lim burst : Z) (ls : list dlabel) (d : dstate),
+    1 <= burst -> DCancel ∉ ls -> run (dstep_b lim burst) (d_init lim) ls = Some d ->
+    Forall (λ l, d_fault l = false) ls /\
+    d_phase d <> DStopped /\ d_dropped d = [] /\ d_abandoned d = [] /\
+    d_received d ≡ₚ d_queried d ++ d_ips d /\
+    Forall (λ b, 1 <= Z.of_nat (length b.1.1) <= Z.max 1 lim) (d_calls d).
+Proof. exact dispatcher_limiter. Qed.
+Print Assumptions C12_dispatcher_limiter.
+
 (* The boundary of "every submitted source is queried and answered": at shutdown it fails.  A source the
    dispatcher had received is dropped without query or answer when the context is cancelled while it waits in
    the select (limit > 1) or in the limiter (limit 1); the answers of a provider call that doLookup has not sent
